@@ -2,7 +2,7 @@ import Anything.Model.Cli
 import Anything.Spec.PinnedIds
 import Anything.Lemmas.PrintedParse
 import Mathlib.Tactic.ByContra
-import Anything.Generated.Knobs
+import Anything.Generated.KnobsCli
 /-!
 # C19 — the command line prints exactly what the library computed
 
